@@ -201,6 +201,7 @@ func isolationCase(c *Ctx) {
 				// target: a fresh instance, or a second handle that is currently attached to ANOTHER
 				// live structure of the same kind (it moves to new keys; that structure must not notice)
 				target := -1
+				var cp interface{}
 				if s.kind.eq.impInto != nil && c.rng.Intn(2) == 0 {
 					for j, t := range structs {
 						if j != i && t.h != nil && t.kind.eq.name == s.kind.eq.name {
@@ -214,7 +215,7 @@ func isolationCase(c *Ctx) {
 						c.op("import-into-attached-handle")
 					}
 				} else {
-					safely(func() { s.kind.eq.imp(c, doc) })
+					safely(func() { cp, _ = s.kind.eq.imp(c, doc) })
 				}
 				snapB := c.dbSnapshot()
 				c.op("import-new-keys")
@@ -224,6 +225,28 @@ func isolationCase(c *Ctx) {
 						c.fail([]string{"C19", "C10"}, "import-touches-existing-key", fmt.Sprintf("importing an export of structure %d (%s) under new keys changed key %q of structure %d", i, s.kind.name, k, j), desc)
 						return
 					}
+				}
+				// the copy is one more live structure: its own updates stay inside the keys it was
+				// given at import, and the exporter (like everybody else) does not notice them
+				if cp != nil {
+					obsBefore := raObserve(s.kind, s.h)
+					cops := []int{c.rng.Intn(40), c.rng.Intn(40), c.rng.Intn(40)}
+					safely(func() { s.kind.eq.feed(c, cp, cops) })
+					c.op("update-imported-copy")
+					snapC := c.dbSnapshot()
+					for _, k := range changedKeys(snapB, snapC) {
+						if j, hit := others[k]; hit {
+							c.fail([]string{"C19", "C10"}, "copy-update-touches-existing-key", fmt.Sprintf("updating a copy of structure %d (%s) imported under new keys changed key %q of structure %d", i, s.kind.name, k, j),
+								map[string]interface{}{"structures": desc, "order": order, "copy_ops": cops})
+							return
+						}
+					}
+					if obs := raObserve(s.kind, s.h); obs != obsBefore {
+						c.fail([]string{"C19", "C10"}, "copy-update-disturbs-exporter", fmt.Sprintf("structure %d (%s) observes %.200q after updates of its imported copy but %.200q before them", i, s.kind.name, obs, obsBefore),
+							map[string]interface{}{"structures": desc, "order": order, "copy_ops": cops})
+						return
+					}
+					snapB = snapC
 				}
 				before = snapB
 			}
